@@ -7,7 +7,12 @@
 (* restart = restore the last persisted snapshot, replay the suffix with   *)
 (* recovered = TRUE, finishedRecovery.                                     *)
 (*                                                                         *)
-(*   streams  name -> [tomb, parts]; parts = sequence (partition id + 1)   *)
+(*   streams  name -> [tomb, subj, cfg, ts, parts]; subj = NATS subject,   *)
+(*            cfg = id of the stream-level configuration (overrides of     *)
+(*            MinISR, concurrency control, retention, ...), ts = creation  *)
+(*            time - all three come with CREATE_STREAM and are copied into *)
+(*            snapshots BY VALUE at Snapshot() time;                       *)
+(*            parts = sequence (partition id + 1)                          *)
 (*            of [replicas, isr, leader, lepoch, epoch,                    *)
 (*                paused   (partition.paused: the partition is closed),    *)
 (*                ppaused  (proto Partition.Paused: what FetchMetadata     *)
@@ -52,16 +57,21 @@ NoSnap == [has |-> FALSE]
 Seq2Set(q) == {q[i] : i \in DOMAIN q}
 Perms(S) == {q \in [1..Cardinality(S) -> S] : \A i, j \in DOMAIN q : i # j => q[i] # q[j]}
 
-NewPart(R, ldr, e, rec) == [replicas |-> R, isr |-> R, leader |-> ldr, lepoch |-> e, epoch |-> e,
-                            paused |-> FALSE, ppaused |-> FALSE, ro |-> FALSE, roeff |-> FALSE, rec |-> rec]
+\* what newPartition derives from the stream configuration (ApplyOverrides): the
+\* minimum ISR size in force (server default 1)
+MinIsrOf(cfg) == IF cfg = "k1" THEN 2 ELSE 1
+NewPart(R, ldr, e, rec, cfg) == [replicas |-> R, isr |-> R, leader |-> ldr, lepoch |-> e, epoch |-> e,
+                                 paused |-> FALSE, ppaused |-> FALSE, ro |-> FALSE, roeff |-> FALSE, rec |-> rec,
+                                 minisr |-> MinIsrOf(cfg)]
+HeadOf(st) == [subj |-> st.subj, cfg |-> st.cfg, ts |-> st.ts]
 Proto(p) == [replicas |-> p.replicas, isr |-> p.isr, leader |-> p.leader, lepoch |-> p.lepoch,
              epoch |-> p.epoch, ppaused |-> p.ppaused, ro |-> p.ro]
 ProtoParts(ps) == [i \in DOMAIN ps |-> Proto(ps[i])]
 \* addPartition from a proto: re-paused when the proto says so; a NEW commit
 \* log is opened and made read-only when the proto says so
-FromProto(q) == [replicas |-> q.replicas, isr |-> q.isr, leader |-> q.leader, lepoch |-> q.lepoch,
+FromProto(q, cfg) == [replicas |-> q.replicas, isr |-> q.isr, leader |-> q.leader, lepoch |-> q.lepoch,
                  epoch |-> q.epoch, paused |-> q.ppaused, ppaused |-> q.ppaused, ro |-> q.ro, roeff |-> q.ro,
-                 rec |-> TRUE]
+                 rec |-> TRUE, minisr |-> MinIsrOf(cfg)]
 
 \* getStreamPartitions: tombstoned streams are still in the store
 PC(ss) == [s \in DOMAIN ss |-> Len(ss[s].parts)]
@@ -98,7 +108,8 @@ Detach(r, s) == IF r.has /\ s \in r.live
 
 ApplyCreate(o, e, rec) ==
   LET fresh(ss, gg) ==
-        [St EXCEPT !.streams = Put(ss, o.s, [tomb |-> FALSE, parts |-> [i \in 1..o.n |-> NewPart(o.R, o.ldr, e, rec)]]),
+        [St EXCEPT !.streams = Put(ss, o.s, [tomb |-> FALSE, subj |-> o.subj, cfg |-> o.cfg, ts |-> o.ts,
+                                                 parts |-> [i \in 1..o.n |-> NewPart(o.R, o.ldr, e, rec, o.cfg)]]),
                    !.groups = gg,
                    \* a live create is followed by data written under this incarnation
                    \* (directories that are already there - possible when a live server installed a
@@ -235,6 +246,7 @@ DoReplay(o) ==
 DoSnapshot(ord) ==
   /\ mode = "live"
   /\ sref' = [has |-> TRUE, idx |-> applied, live |-> DOMAIN streams, frozen |-> <<>>,
+              heads |-> [s \in DOMAIN streams |-> HeadOf(streams[s])],
               groups |-> [g \in {h \in GroupIds : groups[h].exists} |->
                             [members |-> [i \in DOMAIN ord[g] |-> [c |-> ord[g][i], S |-> groups[g].subs[ord[g][i]]]],
                              epoch |-> groups[g].epoch, coord |-> groups[g].coord]]]
@@ -247,7 +259,7 @@ Preview(r) == [s \in r.live \cup DOMAIN r.frozen |->
 
 DoPersist ==
   /\ sref.has
-  /\ snap' = [has |-> TRUE, idx |-> sref.idx, streams |-> Preview(sref), groups |-> sref.groups]
+  /\ snap' = [has |-> TRUE, idx |-> sref.idx, streams |-> Preview(sref), heads |-> sref.heads, groups |-> sref.groups]
   /\ sref' = NoRef
   /\ obs' = [a |-> "Persist", err |-> ""]
   /\ UNCHANGED <<streams, groups, lastPub, disk, applied, mode, nrep, pre>>
@@ -269,7 +281,9 @@ AddMembers(g, ms, pc) == IF ms = <<>> THEN g ELSE AddMembers(GAddMember(g, Head(
 \* "recovered"; the groups are rebuilt by adding the members one by one in
 \* the order of the snapshot
 RestoreEffect ==
-  LET ss == [s \in DOMAIN snap.streams |-> [tomb |-> FALSE, parts |-> [i \in DOMAIN snap.streams[s] |-> FromProto(snap.streams[s][i])]]]
+  LET ss == [s \in DOMAIN snap.streams |->
+               [tomb |-> FALSE, subj |-> snap.heads[s].subj, cfg |-> snap.heads[s].cfg, ts |-> snap.heads[s].ts,
+                parts |-> [i \in DOMAIN snap.streams[s] |-> FromProto(snap.streams[s][i], snap.heads[s].cfg)]]]
       dd == [s \in DOMAIN disk \cup DOMAIN ss |->
                IF s \in DOMAIN ss THEN WithDirs(disk, s, Len(ss[s].parts))[s] ELSE disk[s]]
   IN /\ streams' = ss /\ disk' = dd
@@ -345,8 +359,8 @@ DoGoLive ==
 (* (Finish / GoLive) against `pre`, the state the server had before.        *)
 
 Meta(p) == [replicas |-> p.replicas, isr |-> p.isr, leader |-> p.leader, lepoch |-> p.lepoch,
-            epoch |-> p.epoch, paused |-> p.paused, ppaused |-> p.ppaused, ro |-> p.ro]
-MetaOf(ss) == [s \in DOMAIN ss |-> [tomb |-> ss[s].tomb, parts |-> [i \in DOMAIN ss[s].parts |-> Meta(ss[s].parts[i])]]]
+            epoch |-> p.epoch, paused |-> p.paused, ppaused |-> p.ppaused, ro |-> p.ro, minisr |-> p.minisr]
+MetaOf(ss) == [s \in DOMAIN ss |-> [tomb |-> ss[s].tomb, subj |-> ss[s].subj, cfg |-> ss[s].cfg, ts |-> ss[s].ts, parts |-> [i \in DOMAIN ss[s].parts |-> Meta(ss[s].parts[i])]]]
 \* after recovery every partition that is not paused has been started
 RS_Started == (mode' = "live" /\ mode \in {"replay", "catchup"}) =>
    \A s \in DOMAIN streams' : \A i \in DOMAIN streams'[s].parts : streams'[s].parts[i].paused \/ ~streams'[s].parts[i].rec
